@@ -3,7 +3,7 @@ CONSTANTS
   Keys = {1,2}
   Vals = {0,1,2}
   Cls <- ClsId
-  NanKey = 0
+  NanKey = 2
   WithCmp = TRUE
 VIEW View
 ACTION_CONSTRAINT Dump
